@@ -1822,16 +1822,30 @@ func (cx *Ctx) privateHelpers(fn *ssa.Function) []*ssa.Function {
 	return out
 }
 
-// viaSite: for a call c inside one of fn's private helpers, the call instruction in fn through which c is reached
-// (c itself when it is in fn).
-func (cx *Ctx) viaSite(fn *ssa.Function, c ssa.CallInstruction) ssa.CallInstruction {
-	cur := c
-	for hops := 0; hops < 3 && cur.Parent() != fn; hops++ {
-		sites := cx.Fx.sitesOf[cur.Parent()]
-		if len(sites) == 0 {
-			return c
+// viaSites: for a call c inside one of fn's private helpers, the call instructions in fn through which c is reached
+// (c itself when it is in fn) - every one of them, a piece may be used in several places.
+func (cx *Ctx) viaSites(fn *ssa.Function, c ssa.CallInstruction) []ssa.CallInstruction {
+	cur := []ssa.CallInstruction{c}
+	for hops := 0; hops < 3; hops++ {
+		var next []ssa.CallInstruction
+		moved := false
+		for _, x := range cur {
+			if x.Parent() == fn {
+				next = append(next, x)
+				continue
+			}
+			sites := cx.Fx.sitesOf[x.Parent()]
+			if len(sites) == 0 {
+				next = append(next, x)
+				continue
+			}
+			next = append(next, sites...)
+			moved = true
 		}
-		cur = sites[0]
+		cur = next
+		if !moved {
+			break
+		}
 	}
 	return cur
 }
